@@ -1,22 +1,41 @@
 """C11 (hierarchical references enumerate each occurrence exactly once and are canonical): bounded stand-in on get_h* and HRef."""
-from props import _designb
-LEVEL = 'exploration'
+from props import _designb, _pv
+LEVEL = 'other'
 PID = 'C11'
 RULE = ('distinct = distinct abstract design (hash of the AD); non-trivial = at least one non-leaf definition occurring at two or more '
         'paths below the top and hierarchy depth >= 2')
 
 
 def run(rep, tier, seed):
-    rep.explanation = ('bounded stand-in only: five get_h* queries from single roots of 14 kinds (netlist, library, definition, instance, port, pins, cable, wire and '
+    expl_b = ('five get_h* queries from single roots of 14 kinds (netlist, library, definition, instance, port, pins, cable, wire and '
                        'hierarchical references to them; recursive on/off) and from mixed collections of 2-4 roots (overlapping and disjoint; union, each once) versus an '
                        'independent occurrence enumeration; duplicates; is_valid; names; flyweight canonicity; is_valid/is_unique of held and freshly built references and '
                        'the queries themselves after each step of 26 edit sequences, including edits above the root (top library / definition removed and re-added, '
                        'top re-pointed, set_top_instance, top None) and degenerate elements (instance without reference, cable without wires, port without pins)')
     rep.assumptions = ['Tier B: everything outside the stated bounds is unexplored (DESIGN.md 8.12)',
                        'oracles (canon / elab / occurrence enumeration / Inv) read public attributes only and are calibrated against an AD-level elaborator']
+    failed = _pv.run_suite(rep, PID, 'href', tier)
+    rep.explanation = ('validity (P): HRef.is_valid returns exactly valid(reference) -- the path of items is a path of the CURRENT netlist: the root is the top '
+                       'instance of the netlist holding the library of its definition, every further instance / port / cable lies in the definition REFERENCED by '
+                       'the instance before it, a wire / pin in the cable / port before it -- for all heaps satisfying Inv and all chains of reference nodes; it '
+                       'never raises and writes nothing (while-loop cut at the invariant valid(self) == valid(current node); the code tests membership in '
+                       'definition.references, the specification says instance.reference, Inv I3 connects them).  Enumeration, canonicity, uniqueness (B): ' + expl_b)
     fails = _designb.run_designs(rep, PID, tier, seed, RULE, extra_bounds={'roots_per_design': 'pool of <= 45 roots of 14 kinds', 'mixed_collections': '6 per query and recursive flag, 2-4 roots each', 'edit_sequences': '26 per design (each edit followed by its undo); see bounded_notes in the evidence', 'paths_through_instances_of_definitions_outside_the_netlist': 'not judged'})
     _designb.report_failures(rep, PID, fails)
+    hit = set(v['key'] for v in rep.violations)
+    for fn, o in failed:
+        rep.violation(o['name'], 'obligation %s is no longer discharged (%s)%s' % (o['name'], (o.get('detail') or '')[:200],
+                      '; the bounded tier reports a failing input for this property in the same run' if hit else ''),
+                      replay={'kind': 'obligation', 'obligation': o['name'], 'function': fn, 'solver_output': o.get('detail')}, nfi=not hit)
+    rep.trusted = list(getattr(rep, 'trusted', []) or []) + ['pyvc VC generator (DESIGN.md 3), z3/cvc5', 'IR heap model and Inv of specs/ir.py']
+    rep.assumptions += ['the netlist satisfies Inv (proved for API-built netlists by C01/C02)',
+                        'reference nodes are immutable and their parent chain is finite and acyclic (built bottom-up by from_parent_and_item); termination of the walk is not proved',
+                        'the item of a node is None or an object that is not itself a reference node']
 
 
 def replay(path):
+    import json
+    d = json.load(open(path)); r = d.get('replay') or {}
+    if r.get('kind') == 'obligation':
+        print('replay file names obligation %s; solver output: %s' % (r.get('obligation'), str(r.get('solver_output'))[:300])); return 0
     return _designb.replay(path, PID)
